@@ -49,6 +49,30 @@ def replay_case(case):
             j = next((j for r in range(len(cells)) for j in range(len(names)) if r < len(case["cells"]) and cells[r][j] != case["cells"][r][j]), None) \
                 if len(cells) == len(case["cells"]) else None
             bad.append({**base, "why": "cells", "column": names[j] if j is not None else None, "observed": cells, "expected": case["cells"]})
+    # the matrix is a function of the numbers in the frame, not of the dtype that stores them: scaled-up integers held as float64
+    # and as the narrowest integer dtype that can hold them give the same matrix (products must not be taken in that dtype)
+    numcols = [c for c in df.columns if df[c].dtype.kind == "f"]
+    if numcols and not bad and all(df[c].notna().all() and (df[c] == df[c].round()).all() for c in numcols) and h0 % 2 == 0:
+        import numpy
+
+        rawtop = max(1.0, max(float(df[c].abs().max()) for c in numcols))
+        mult = float(int(127 // rawtop)) if rawtop <= 127 else 1.0      # as large as int8 can hold: products and scalings exceed int8
+        big = df.copy()
+        for c in numcols:
+            big[c] = big[c] * mult
+        narrow = big.copy()
+        for c in numcols:
+            narrow[c] = big[c].astype("int8" if rawtop <= 127 else "int64")
+        o1 = matlib.observe_build(formula, big, output="numpy", full_rank=case["full_rank"], na=case["na"], cluster=case["cluster"])
+        o2 = matlib.observe_build(formula, narrow, output="numpy", full_rank=case["full_rank"], na=case["na"], cluster=case["cluster"])
+        if o1["st"] == "OK":
+            base = {"formula": formula, "fid": case["fid"], "output": "numpy", "full_rank": case["full_rank"], "na": case["na"], "cluster": case["cluster"], "path": "integer dtype"}
+            if o2["st"] != "OK":
+                bad.append({**base, "why": "exception with integer columns", "observed": o2.get("cls"), "msg": o2.get("msg")})
+            else:
+                a1, a2 = numpy.asarray(o1["mm"], dtype=float), numpy.asarray(o2["mm"], dtype=float)
+                if a1.shape != a2.shape or not numpy.array_equal(a1, a2):
+                    bad.append({**base, "why": "cells depend on the integer dtype holding the same numbers", "observed": a2.tolist(), "expected": a1.tolist()})
     return bad
 
 
